@@ -116,8 +116,14 @@ func verifyStore(cs consensus.State, st *sim.Store, built *ref.Built) (int, erro
 	return n, nil
 }
 
-// treeNodes checks ForEachTreeNode of an apply update against the old and new naive forests.
-func treeNodes(au consensus.ApplyUpdate, oldB, newB *ref.Built) error {
+// treeNodes checks ForEachTreeNode of an update against the naive forests before (oldB) and after (newB) it: every
+// reported node is a node of the forest after the update with the naive hash, no node is reported twice, and every node
+// of the forest after the update that is new or differs from the forest before it is reported. For a revert update the
+// forest "after" is the restored pre-block forest and the forest "before" the post-block one (every node of the restored
+// forest also exists in the larger one, so "new" never applies and exactly the restored nodes must be reported).
+func treeNodes(au interface {
+	ForEachTreeNode(func(row, col uint64, h types.Hash256))
+}, oldB, newB *ref.Built) error {
 	reported := map[[2]uint64]ref.H{}
 	var dup error
 	au.ForEachTreeNode(func(row, col uint64, h types.Hash256) {
@@ -231,11 +237,17 @@ func checkChain(c sim.ChainCase) error {
 			return nil
 		},
 		AfterRevert: func(ch *sim.Chain, st *sim.Step, b types.Block, bs consensus.V1BlockSupplement, ru consensus.RevertUpdate) error {
+			postB := ft.Tip().Build()
 			ft.Revert()
 			reverted = true
 			n, err := verifyStore(ch.Tip(), ch.Store, ft.Tip().Build())
 			elements += n
 			steps++
+			if err == nil {
+				if terr := treeNodes(ru, postB, ft.Tip().Build()); terr != nil {
+					err = stats.Failf("C05/tree-nodes-revert", "revert to height %d: %v", ch.Height(), terr)
+				}
+			}
 			if err == nil {
 				err = follow(fw.Revert(ru, ch.Tip().Elements.NumLeaves), ft.Tip().Build(), fmt.Sprintf("revert to height %d", ch.Height()))
 			}
@@ -352,11 +364,15 @@ func checkSyn(c SynCase) error {
 			if err != nil {
 				return stats.Failf("C05/syn", "op %d revert: %v", i, err)
 			}
+			postB := ft.Tip().Build()
 			ft.Revert()
 			k, err := verifyStore(ch.Tip(), ch.Store, ft.Tip().Build())
 			proofs += k
 			if err != nil {
 				return fmt.Errorf("op %d (revert): %w", i, err)
+			}
+			if err := treeNodes(ru, postB, ft.Tip().Build()); err != nil {
+				return stats.Failf("C05/tree-nodes-revert", "op %d (revert): %v", i, err)
 			}
 			if err := follow(fw.Revert(ru, ch.Tip().Elements.NumLeaves), ft.Tip().Build(), fmt.Sprintf("op %d (revert)", i)); err != nil {
 				return err
